@@ -6,3 +6,4 @@ import UgoVerif.Props.C20
 import UgoVerif.Props.C01
 import UgoVerif.Props.C16
 import UgoVerif.Props.C11
+import UgoVerif.Props.C09
